@@ -629,8 +629,9 @@ class Body:
 
 
 class Facts:
-    def __init__(self, path):
+    def __init__(self, path, baseline=None):
         self.path = path
+        self._baseline_arg = baseline
         with open(path) as f:
             lines = f.read().split('\n')
         self.header = json.loads(lines[0])
@@ -652,10 +653,24 @@ class Facts:
         self.impls = self.header['impls']
         self.n_bodies = len(self.order)
         self._callers = None
+        import inliner
+        # baseline: None -> rules/baseline_fns.txt; False -> no inlining; a set -> that set
+        self.baseline = inliner.load_baseline() if self._baseline_arg is None else (
+            None if self._baseline_arg is False else dict.fromkeys(self._baseline_arg, (None, None))
+            if not isinstance(self._baseline_arg, dict) else self._baseline_arg)
+        self.inlined = {}
 
     def bodies_raw(self, path):
         if path not in self._bodies:
-            self._bodies[path] = [Body(self, json.loads(l)) for l in self._raw[path]]
+            ds = [json.loads(l) for l in self._raw[path]]
+            if self.baseline is not None:
+                import inliner
+                ds = [inliner.inline_new_helpers(self, d, norm) if d['kind'] in ('Fn', 'AssocFn', 'Closure') else d
+                      for d in ds]
+                for d in ds:
+                    if d.get('inlined'):
+                        self.inlined[norm(d['path'])] = d['inlined']
+            self._bodies[path] = [Body(self, d) for d in ds]
         return self._bodies[path]
 
     def get(self, npath):
